@@ -136,7 +136,7 @@ def run(ctx):
                 vec_eq(ctx, key, rs.only().ret, vs('a0', 3) + vs('a1', 3), 'perm: Ray::new(origin, direction)', w)
             elif k == 'ray':
                 ray(ctx, key, rs, w, named('eps:' + m.get('ty', 'f32')))
-        except AssertionError as e:
+        except (AssertionError, KeyError, ValueError, TypeError, IndexError, ZeroDivisionError, AttributeError) as e:
             ctx.ob(key + '/paths', False, 'path structure', w, 'analysable', str(e))
     ctx.floor('roots analysed', done, len(roots))
 
